@@ -3,14 +3,29 @@ import EpsicDriver.Proto
 namespace Epsic.Driver
 open Epsic Epsic.Pauli
 
+/-- exact rational value of every entry of a `Float` basis (the C++ `Basis<double>` holds doubles;
+templates instantiated at the exact scalar convert each entry exactly) -/
+def basisToRat (b : Basis Float) : Option (Basis Rat) := do
+  let conv (m : Mat 3 3 Float) : Option (Mat 3 3 Rat) := do
+    let l ← (Mat.toList m).mapM (fun f => bitsToRat f.toBits)
+    let arr := l.toArray
+    pure (fun i j => arr[i.val*3 + j.val]!)
+  let i ← conv b.into
+  let o ← conv b.outof
+  pure ⟨b.code, i, o⟩
+
 def basisArg : Rd (Basis Rat) := do
   match (← tok) with
   | "lin" => pure Basis.linear
   | "cir" => pure Basis.circular
   | "ell" => do
       let _ ← tok; let _ ← tok
-      let c2o ← hexRat; let s2o ← hexRat; let c2e ← hexRat; let s2e ← hexRat
-      pure (Basis.elliptical c2o s2o c2e s2e)
+      -- the four libm leaf values; the products that fill the matrix are IEEE double products,
+      -- i.e. the generic model definition instantiated at `Float`
+      let c2o ← hexFloat; let s2o ← hexFloat; let c2e ← hexFloat; let s2e ← hexFloat
+      match basisToRat (Basis.elliptical c2o s2o c2e s2e) with
+      | some b => pure b
+      | none => perr "non-finite basis"
   | t => perr ("basis " ++ t)
 
 def showBasis (b : Basis Rat) : List Rat :=
